@@ -144,7 +144,8 @@ pub fn record(seed: u64, thorough: bool) -> Vec<J> {
             let floor: f64 = if temp { 1000.0 } else { 0.0 };
             let (ida, idb) = (a.identifiers[0], b.identifiers[0]);
             for (k, x) in mags.iter().enumerate() {
-                if !thorough && (ia + ib + k) % 3 != 0 && ia != ib { continue; }
+                let reciprocal = matches!(a.conversion, ConversionType::Reciprocal { .. }) || matches!(b.conversion, ConversionType::Reciprocal { .. });
+                if !thorough && !reciprocal && (ia + ib + k) % 3 != 0 && ia != ib { continue; }
                 let ab = match units::convert(*x, ida, idb) { Ok(v) => v, Err(_) => continue };
                 if ia == ib {
                     out.push(json!({"ev":"num","law":"identity","src":format!("convert({x}, {ida}, {ida})"),"ulps":ulps(ab, *x)}));
@@ -157,6 +158,15 @@ pub fn record(seed: u64, thorough: bool) -> Vec<J> {
                         out.push(json!({"ev":"num","law":"alias","src":format!("convert({x}, {alias} vs {ida}, {})", other.identifiers[0]),"ulps":same}));
                     }
                     continue;
+                }
+                // every identifier of the TARGET unit names the same unit too (symbols that differ from one of the source's
+                // identifiers only in case included: mW -> MW is a conversion, not the identity)
+                if k % 3 == 1 || thorough {
+                    for alias in b.identifiers.iter().skip(1) {
+                        let v1 = units::convert(*x, ida, alias);
+                        let same = match v1 { Ok(p) => if p == ab || (p.is_nan() && ab.is_nan()) { 0 } else { ulps(p, ab).max(1) }, Err(_) => 1_000_000 };
+                        out.push(json!({"ev":"num","law":"aliastarget","src":format!("convert({x}, {ida}, {alias} vs {idb})"),"ulps":same}));
+                    }
                 }
                 if ab.is_finite() {
                     let back = units::convert(ab, idb, ida).unwrap_or(f64::NAN);
